@@ -400,3 +400,119 @@ Example C02_phase0_nonvacuous :
   option_map balances (Epoch.process_rewards_and_penalties E Phase0 w_p0)
   = Some [32000130639; 31997452527; 29993034739; 16997776595; 31992879454; 0; 31992940691; 31992810052].
 Proof. exact phase0_nonvacuous. Qed.
+
+(* ================= assembly: sync rotation, fork upgrades, ProcessSlot, ProcessEpoch, ProcessSlots =================
+   Impl = Beacon/Impl/{SyncRotation,Upgrades,EpochPipeline}.v: zrnt's ProcessSyncCommitteeUpdates, UpgradeTo<Fork>,
+   UpgradeMaybe, ProcessSlot, ProcessEpoch (phase0 and altair+ pipelines in Go's call order, Go's EpochsContext as the
+   parameter), and the ProcessSlots loop.  They are tied to the Go code by the C02ASM stream (harness/cmd/c02asm,
+   Beacon/Refine/AsmRun.v).  Qualified names: unqualified process_* are the Spec's.
+   `_partial`: the hypotheses EpochInv/MidBounds/StepOk are assumed at each epoch boundary (not shown preserved by
+   blocks), MidBounds excludes the mid-epoch balance saturation of C02_altair_delta_order_refuted, epoch 0 is excluded. *)
+From V Require Import Base.Outcome.
+From V Require Beacon.Impl.SyncRotation Beacon.Impl.Upgrades Beacon.Impl.EpochPipeline.
+From V Require Beacon.Refine.SyncRotationRefine Beacon.Refine.UpgradesRefine Beacon.Refine.EpochAssembly
+  Beacon.Refine.C02AssemblyTheorems Beacon.Refine.AssemblyWitness.
+
+Theorem C02_sync_rotation_refines : forall (E : Env) (pubkey_ok : bytes -> bool) (st : BeaconState) (epc : SyncRotation.SyncEpc)
+    (st' : BeaconState) (fuel : nat),
+  SyncRotationRefine.SyncHyps E pubkey_ok st epc -> (PROPOSER_FUEL <= fuel)%nat ->
+  Epoch.process_sync_committee_updates E st = Some st' ->
+  SyncRotation.process_sync_committee_updates E pubkey_ok fuel epc st = Ok st'.
+Proof. exact C02AssemblyTheorems.C02A_sync_rotation_refines. Qed.
+Print Assumptions C02_sync_rotation_refines.
+
+Theorem C02_sync_rotation_rejects : forall (E : Env) (pubkey_ok : bytes -> bool) (st : BeaconState) (epc : SyncRotation.SyncEpc),
+  SyncRotationRefine.SyncHyps E pubkey_ok st epc ->
+  Epoch.process_sync_committee_updates E st = None ->
+  SyncRotation.process_sync_committee_updates E pubkey_ok PROPOSER_FUEL epc st =
+  (if N.of_nat (length (get_active_validator_indices st (get_current_epoch E st + 1))) =? 0 then Err else OutOfFuel).
+Proof. exact C02AssemblyTheorems.C02A_sync_rotation_rejects. Qed.
+Print Assumptions C02_sync_rotation_rejects.
+
+Theorem C02_upgrade_to_altair_refines : forall (E : Env) (pubkey_ok : bytes -> bool) (committee_of : N -> N -> option (list N))
+    (sepc : SyncRotation.SyncEpc) (pre post : BeaconState) (fuel : nat),
+  UpgradesRefine.AltairUpgradeHyps E pubkey_ok committee_of sepc pre -> (PROPOSER_FUEL <= fuel)%nat ->
+  upgrade_to E Altair pre = Some post -> Upgrades.upgrade_to_altair E pubkey_ok fuel committee_of sepc pre = Ok post.
+Proof. exact C02AssemblyTheorems.C02A_upgrade_to_altair_refines. Qed.
+Print Assumptions C02_upgrade_to_altair_refines.
+
+Theorem C02_upgrade_to_bellatrix_refines : forall (E : Env) (pre post : BeaconState),
+  SLOTS_PER_EPOCH (cfg E) <> 0 -> upgrade_to E Bellatrix pre = Some post -> Upgrades.upgrade_to_bellatrix E pre = Ok post.
+Proof. exact C02AssemblyTheorems.C02A_upgrade_to_bellatrix_refines. Qed.
+Print Assumptions C02_upgrade_to_bellatrix_refines.
+
+Theorem C02_upgrade_to_capella_refines : forall (E : Env) (pre post : BeaconState),
+  SLOTS_PER_EPOCH (cfg E) <> 0 -> UpgradesRefine.header_fields 14 (latest_execution_payload_header pre) ->
+  upgrade_to E Capella pre = Some post -> Upgrades.upgrade_to_capella E pre = Ok post.
+Proof. exact C02AssemblyTheorems.C02A_upgrade_to_capella_refines. Qed.
+Print Assumptions C02_upgrade_to_capella_refines.
+
+Theorem C02_upgrade_to_deneb_refines : forall (E : Env) (pre post : BeaconState),
+  SLOTS_PER_EPOCH (cfg E) <> 0 -> UpgradesRefine.header_fields 15 (latest_execution_payload_header pre) ->
+  upgrade_to E Deneb pre = Some post -> Upgrades.upgrade_to_deneb E pre = Ok post.
+Proof. exact C02AssemblyTheorems.C02A_upgrade_to_deneb_refines. Qed.
+Print Assumptions C02_upgrade_to_deneb_refines.
+
+(* UpgradeMaybe: the chain of `if slot = fork epoch start` tests, several forks at one epoch included *)
+Theorem C02_upgrade_maybe_refines : forall (E : Env) (pubkey_ok : bytes -> bool) (electra_fork_epoch : N)
+    (committee_of : N -> N -> option (list N)) (sepc : SyncRotation.SyncEpc) (pk_index : bytes -> option N)
+    (f : fork) (st : BeaconState) (f' : fork) (st' : BeaconState) (fuel : nat),
+  UpgradesRefine.UpgradeMaybeHyps E pubkey_ok electra_fork_epoch committee_of sepc pk_index f st ->
+  (PROPOSER_FUEL <= fuel)%nat ->
+  Transition.upgrade_maybe E 5 f st = Some (f', st') ->
+  Upgrades.upgrade_maybe E pubkey_ok electra_fork_epoch fuel committee_of sepc pk_index (f, st) = Ok (f', st').
+Proof. exact C02AssemblyTheorems.C02A_upgrade_maybe_refines. Qed.
+Print Assumptions C02_upgrade_maybe_refines.
+
+Theorem C02_process_slot_refines : forall (E : Env) (f : fork) (st : BeaconState),
+  SLOTS_PER_HISTORICAL_ROOT (cfg E) <> 0 ->
+  N.of_nat (length (state_roots st)) = SLOTS_PER_HISTORICAL_ROOT (cfg E) ->
+  N.of_nat (length (block_roots st)) = SLOTS_PER_HISTORICAL_ROOT (cfg E) ->
+  EpochPipeline.process_slot E f st = Ok (Transition.process_slot E f st).
+Proof. exact C02AssemblyTheorems.C02A_process_slot_refines. Qed.
+Print Assumptions C02_process_slot_refines.
+
+(* the whole of ProcessEpoch, all sub-transitions chained in Go's order on Go's flattened snapshot *)
+Theorem C02_process_epoch_refines_partial : forall (E : Env) (pubkey_ok : bytes -> bool) (fuel : nat) (f : fork) (st : BeaconState)
+    (cx : EpochPipeline.EpochCtx) (st' : BeaconState),
+  EpochAssembly.EpochInv E pubkey_ok f st cx -> EpochAssembly.MidBounds E f st -> (PROPOSER_FUEL <= fuel)%nat ->
+  Epoch.process_epoch E f st = Some st' -> EpochPipeline.process_epoch E pubkey_ok fuel f cx st = Ok st'.
+Proof. exact C02AssemblyTheorems.C02A_process_epoch_refines_partial. Qed.
+Print Assumptions C02_process_epoch_refines_partial.
+
+Theorem C02_slot_step_refines_partial : forall (E : Env) (pubkey_ok : bytes -> bool) (electra_fork_epoch : N) (fuel : nat)
+    (ctx_of : fork -> BeaconState -> EpochPipeline.EpochCtx) (f : fork) (st : BeaconState) (r : fork * BeaconState),
+  EpochAssembly.StepOk E pubkey_ok electra_fork_epoch ctx_of f st -> (PROPOSER_FUEL <= fuel)%nat ->
+  Transition.slot_step E f st = Some r -> EpochPipeline.slot_step E pubkey_ok electra_fork_epoch fuel ctx_of f st = Ok r.
+Proof. exact C02AssemblyTheorems.C02A_slot_step_refines_partial. Qed.
+Print Assumptions C02_slot_step_refines_partial.
+
+(* ProcessSlots over any number of slots, epochs and fork boundaries: by induction along the Spec's own trajectory *)
+Theorem C02_process_slots_refines_partial : forall (E : Env) (pubkey_ok : bytes -> bool) (electra_fork_epoch : N) (fuel : nat)
+    (ctx_of : fork -> BeaconState -> EpochPipeline.EpochCtx) (f : fork) (st : BeaconState) (target : N) (r : fork * BeaconState),
+  (forall (k : nat) (f1 : fork) (st1 : BeaconState),
+     EpochAssembly.spec_iter E k f st = Some (f1, st1) -> slot st1 < target ->
+     EpochAssembly.StepOk E pubkey_ok electra_fork_epoch ctx_of f1 st1) ->
+  (PROPOSER_FUEL <= fuel)%nat -> Transition.process_slots E f st target = Some r ->
+  EpochPipeline.process_slots E pubkey_ok electra_fork_epoch fuel ctx_of f st target = Ok r.
+Proof. exact C02AssemblyTheorems.C02A_process_slots_refines_partial. Qed.
+Print Assumptions C02_process_slots_refines_partial.
+
+Theorem C02_process_slots_rejects_past : forall (E : Env) (pubkey_ok : bytes -> bool) (electra_fork_epoch : N) (fuel : nat)
+    (ctx_of : fork -> BeaconState -> EpochPipeline.EpochCtx) (f : fork) (st : BeaconState) (target : N),
+  target <= slot st ->
+  Transition.process_slots E f st target = None /\
+  EpochPipeline.process_slots E pubkey_ok electra_fork_epoch fuel ctx_of f st target = Err.
+Proof. exact C02AssemblyTheorems.C02A_process_slots_rejects_past. Qed.
+Print Assumptions C02_process_slots_rejects_past.
+
+(* non-vacuity: a concrete altair state at the last slot of an epoch meets EpochInv, MidBounds and StepOk, and the step moves
+   every balance, score and the slot *)
+Theorem C02_assembly_nonvacuous :
+  EpochAssembly.StepOk AssemblyWitness.asm_E AssemblyWitness.asm_pk_ok AssemblyWitness.asm_electra AssemblyWitness.asm_ctx_of Altair AssemblyWitness.asm_pre /\
+  (exists r, Transition.slot_step AssemblyWitness.asm_E Altair AssemblyWitness.asm_pre = Some r /\
+             EpochPipeline.slot_step AssemblyWitness.asm_E AssemblyWitness.asm_pk_ok AssemblyWitness.asm_electra PROPOSER_FUEL
+               AssemblyWitness.asm_ctx_of Altair AssemblyWitness.asm_pre = Ok r) /\
+  option_map (fun r => (fork_idx (fst r), slot (snd r))) (Transition.slot_step AssemblyWitness.asm_E Altair AssemblyWitness.asm_pre) = Some (1, 64).
+Proof. exact AssemblyWitness.slot_step_nonvacuous. Qed.
+Print Assumptions C02_assembly_nonvacuous.
